@@ -203,3 +203,102 @@ class OnePass:
         seen.add(id(n))
         res.append((n, msg))
     return res
+
+  # ---------------------------------------------------------------------------
+  # second discipline: a one-shot local is traversed by at most ONE full consumer on any path
+
+  FULL_CONSUMERS = {'list', 'tuple', 'sorted', 'set', 'dict', 'frozenset', 'sum', 'max', 'min', 'map', 'zip', 'filter',
+                    'enumerate', 'collections.deque', 'collections.Counter', 'np.array', 'np.asarray', 'np.fromiter',
+                    'np.stack', 'np.concatenate', 'itertools.chain', 'itt.chain', 'itertools.chain.from_iterable',
+                    'itt.chain.from_iterable', 'mit.last', 'mit.ilen', 'functools.reduce'}
+
+  def analyse_twice(self, fi: FuncInfo) -> tuple[int, list[tuple[ast.AST, str]]]:
+    """(number of one-shot locals examined, findings): two full traversals of one one-shot local on a common path.
+
+    A local bound exactly once to a one-shot expression (map/zip/filter/generator expression/generator call) is
+    empty after its first full traversal (for-loop, comprehension, yield from, or a call that walks all of it:
+    list/tuple/sum/map/zip/...).  Two such sites are on a common path unless they sit in the two arms of one `if`
+    or the arm holding the first one ends in return/raise/continue/break.
+    """
+    fn = fi.node
+    pm = parent_map(fn)
+    defs: dict[str, list[ast.Assign]] = {}
+    for x in ast.walk(fn):
+      if isinstance(x, ast.Assign):
+        for t in x.targets:
+          for y in ast.walk(t):
+            if isinstance(y, ast.Name):
+              defs.setdefault(y.id, []).append(x)
+      elif isinstance(x, (ast.AugAssign, ast.AnnAssign, ast.NamedExpr)) and isinstance(x.target, ast.Name):
+        defs.setdefault(x.target.id, []).append(x)
+      elif isinstance(x, (ast.For, ast.AsyncFor, ast.comprehension)):
+        for y in ast.walk(x.target):
+          if isinstance(y, ast.Name):
+            defs.setdefault(y.id, []).append(x)
+    params = {p.arg for p in fn.args.posonlyargs + fn.args.args + fn.args.kwonlyargs}
+    locals_ = {n: d[0] for n, d in defs.items() if len(d) == 1 and n not in params and isinstance(d[0], ast.Assign)
+               and len(d[0].targets) == 1 and isinstance(d[0].targets[0], ast.Name) and self.is_one_shot_expr(d[0].value, fi)
+               and not (isinstance(d[0].value, ast.Call) and unparse(d[0].value.func) in ('iter', 'reversed'))}
+    out = []
+    if not locals_:
+      return 0, out
+
+    def chain(n):
+      c = []
+      while n is not None and n is not fn:
+        c.append(n)
+        n = pm.get(n)
+      return c[::-1]
+
+    def arm_of(ifnode, child):
+      for fld in ('body', 'orelse', 'handlers', 'finalbody'):
+        b = getattr(ifnode, fld, None)
+        if isinstance(b, list) and any(child is s for s in b):
+          return fld, b
+      return None, None
+
+    for name, d in locals_.items():
+      sites = []
+      for x in ast.walk(fn):
+        if isinstance(x, (ast.For, ast.AsyncFor)) and isinstance(x.iter, ast.Name) and x.iter.id == name:
+          sites.append(x)
+        elif isinstance(x, ast.comprehension) and isinstance(x.iter, ast.Name) and x.iter.id == name:
+          sites.append(pm.get(x))
+        elif isinstance(x, ast.YieldFrom) and isinstance(x.value, ast.Name) and x.value.id == name:
+          sites.append(x)
+        elif isinstance(x, ast.Call) and unparse(x.func) in self.FULL_CONSUMERS:
+          for arg in x.args:
+            a0 = arg.value if isinstance(arg, ast.Starred) else arg
+            if isinstance(a0, ast.Name) and a0.id == name:
+              sites.append(x)
+      sites = [s for s in sites if s is not None and getattr(s, 'lineno', 0) >= d.lineno]
+      sites.sort(key=lambda s: (s.lineno, s.col_offset))
+      for i in range(len(sites)):
+        for j in range(i + 1, len(sites)):
+          a, b = sites[i], sites[j]
+          ca, cb = chain(a), chain(b)
+          k = 0
+          while k < min(len(ca), len(cb)) and ca[k] is cb[k]:
+            k += 1
+          exclusive = False
+          if k > 0 and k < len(ca) and k < len(cb) and isinstance(ca[k - 1], (ast.If, ast.Try)):
+            fa, _ = arm_of(ca[k - 1], ca[k])
+            fb, _ = arm_of(ca[k - 1], cb[k])
+            exclusive = fa is not None and fb is not None and fa != fb and not (
+                isinstance(ca[k - 1], ast.Try) and {fa, fb} & {'finalbody'})
+          # the arm that holds the first site leaves the function / iteration before the second is reached
+          for idx in range(k, len(ca)):
+            par = ca[idx - 1] if idx > 0 else fn
+            if isinstance(par, ast.If):
+              _, arm = arm_of(par, ca[idx])
+              if arm and isinstance(arm[-1], (ast.Return, ast.Raise, ast.Continue, ast.Break)) and not any(
+                  cb_ is par for cb_ in cb[idx:]):
+                exclusive = True
+          if not exclusive:
+            out.append((b, f'`{name}` (bound at line {d.lineno} to `{unparse(d.value)[:40]}`, a one-shot iterator) is traversed at'
+                        f' line {a.lineno} and again at line {b.lineno}: the second traversal sees nothing'))
+            break
+        else:
+          continue
+        break
+    return len(locals_), out
